@@ -70,16 +70,27 @@ func (w *ConfWatcher) run() {
 	defer close(w.done)
 
 	var lastCalled time.Time
+	var trailing <-chan time.Time // armed while a change inside minInterval waits to be reported
 	previousWatchedPath, _ := filepath.EvalSymlinks(w.absolutePath)
+
+	notify := func() bool {
+		// wait some additional time to allow the writer to complete its job
+		time.Sleep(additionalWait)
+
+		lastCalled = time.Now()
+
+		select {
+		case w.signal <- struct{}{}:
+			return true
+		case <-w.terminate:
+			return false
+		}
+	}
 
 outer:
 	for {
 		select {
 		case event := <-w.inner.Events:
-			if time.Since(lastCalled) < minInterval {
-				continue
-			}
-
 			currentWatchedPath, _ := filepath.EvalSymlinks(w.absolutePath)
 			eventPath, _ := filepath.Abs(event.Name)
 			eventPath, _ = filepath.EvalSymlinks(eventPath)
@@ -91,17 +102,29 @@ outer:
 				(eventPath == currentWatchedPath &&
 					((event.Op&fsnotify.Write) == fsnotify.Write ||
 						(event.Op&fsnotify.Create) == fsnotify.Create)) {
-				// wait some additional time to allow the writer to complete its job
-				time.Sleep(additionalWait)
 				previousWatchedPath = currentWatchedPath
 
-				lastCalled = time.Now()
+				if since := time.Since(lastCalled); since < minInterval {
+					// too early to notify again: do not lose the change,
+					// report it as soon as minInterval has elapsed
+					if trailing == nil {
+						trailing = time.After(minInterval - since)
+					}
+					continue
+				}
 
-				select {
-				case w.signal <- struct{}{}:
-				case <-w.terminate:
+				trailing = nil
+				if !notify() {
 					break outer
 				}
+			}
+
+		case <-trailing:
+			trailing = nil
+
+			previousWatchedPath, _ = filepath.EvalSymlinks(w.absolutePath)
+			if previousWatchedPath != "" && !notify() {
+				break outer
 			}
 
 		case <-w.inner.Errors:
